@@ -122,38 +122,42 @@ func VP_C04_sc_write_read_4k() {
 	}
 }
 
-// c04ScTwoWrites: create + write of l1 bytes at 0, then a second handle writes l2 (<= 8) bytes
-// at a symbolic offset o2 in [0, l1+4]: overlap, extension, size unchanged or a gap of up to 4
-// bytes (which reads as zeros in the reference tree).
-func c04ScTwoWrites(cfg c04Cfg) {
+// c04ScTwoWrites: create + write of l1 bytes at 0 (l1 case-split: inside a block, exactly one
+// block, just over one block), then a second handle writes l2 (1..8) bytes at a symbolic offset
+// o2 in [0, l1+4]: overlap, extension, size unchanged or a gap of up to 4 bytes (which reads as
+// zeros in the reference tree).
+// The two structural cases are separate harnesses (extend: the second write ends after the
+// current end; inside: it ends at or before it) with offsets built so that the case is decided
+// by the value ranges.
+func c04ScTwoWrites(cfg c04Cfg, l1 int, extend bool) {
 	fsys, dev, size := c04Fixture(cfg)
 	bs := cfg.bs()
-	max1 := bs + 8
-	data1 := vp.Bytes("data1", max1)
-	l1 := vp.Int("len1")
-	vp.Assume(l1 >= 0)
-	vp.Assume(l1 <= max1)
+	data1 := vp.Bytes("data1", l1)
 	data2 := vp.Bytes("data2", 8)
-	l2 := vp.Int("len2")
-	vp.Assume(l2 >= 1)
-	vp.Assume(l2 <= 8)
-	o2 := vp.Int("off2")
-	vp.Assume(o2 >= 0)
-	vp.Assume(o2 <= l1+4)
-	vp.AllocCap(max1 + 8)
-	dev.symCap = max1 + 8
+	var l2, o2 int
+	if extend {
+		l2 = 8
+		o2 = l1 - 4 + int(vp.U8("d")&7) // l1-4 .. l1+3: overlap+extend, append, gap
+	} else {
+		l2 = 1 + int(vp.U8("e")&3)           // 1..4
+		o2 = int(vp.U16("d") & 1023) // 0..1023 (l1 >= 1027 in this case)
+		if l1 < 1027 {
+			o2 = int(vp.U16("d") & 511)
+		}
+	}
 	c04Window(fsys, dev, cfg, 4)
-	c04WriteAt(fsys, "/f", os.O_CREATE|os.O_RDWR, -1, data1[:l1])
+	c04WriteAt(fsys, "/f", os.O_CREATE|os.O_RDWR, -1, data1)
 	vp.AllocCap(8)
 	dev.symCap = 8
+	vp.KnownPanic("KF-C04-3", "ext4/file.go:198")
 	c04WriteAt(fsys, "/f", os.O_RDWR, int64(o2), data2[:l2])
 	// reference
-	maxR := max1 + 4 + 8
+	maxR := l1 + 4 + 8
 	ref := make([]byte, maxR)
 	for j := 0; j < maxR; j++ {
 		var v byte
-		if j < max1 {
-			v = vp.IteU8(j < l1, data1[j], 0)
+		if j < l1 {
+			v = data1[j]
 		}
 		k := j - o2
 		in := k >= 0
@@ -184,9 +188,12 @@ func c04ScTwoWrites(cfg c04Cfg) {
 	vp.Cover("two writes done")
 }
 
-func VP_C04_sc_two_writes_1k() { c04ScTwoWrites(c04Cfg{spb: 2}) }
-func VP_C04_sc_two_writes_4k() {
+func VP_C04_sc_extend_1k_in()    { c04ScTwoWrites(c04Cfg{spb: 2}, 1000, true) }
+func VP_C04_sc_extend_1k_edge()  { c04ScTwoWrites(c04Cfg{spb: 2}, 1022, true) }
+func VP_C04_sc_extend_1k_exact() { c04ScTwoWrites(c04Cfg{spb: 2}, 1024, true) }
+func VP_C04_sc_overwrite_1k()    { c04ScTwoWrites(c04Cfg{spb: 2}, 1030, false) }
+func VP_C04_sc_extend_4k() {
 	if vp.Thorough() {
-		c04ScTwoWrites(c04Cfg{spb: 8, csum: true, start: 4096})
+		c04ScTwoWrites(c04Cfg{spb: 8, csum: true, start: 4096}, 4094, true)
 	}
 }
